@@ -229,4 +229,24 @@ PROPS = {
         assumptions=["aliasing inside encodeToString (the string header s := b[i:] is read while b is appended to) is not expressible in "
                      "the immutable-value model; only the guard-byte differential on the real code covers it"],
     ),
+    "C14": dict(
+        lean_modules=["Enc.Props.C14"],
+        variants=V_DEFAULT, areas=["json.encoder", "json.decoder", "json.Append", "json.Parse", "json.Encoder", "json.Decoder", "json.AppendFlags", "json.ParseFlags"],
+        allowed_native=["Enc.Lemmas.Json", "Lemmas.Json"],
+        main_theorem="Enc.Props.C14.dynChoice_is_documented_precedence (decision table of decodeDynamicNumber = documented precedence), dynChoice_value",
+        rule="(a) number literals (width boundaries, beyond 64 bits, -0, fractions, exponents, random) x all 16 subsets of "
+             "UseNumber/UseBigInt/UseInt64/UseUint64, at top level and nested: dynamic type and value, implementation = model = "
+             "documented precedence; (b) on the real code: every type-directed value x {by value, by pointer} x all 8 AppendFlags "
+             "subsets: error iff the default flags error, output valid JSON with the same generic value (encoding/json, UseNumber) "
+             "as the reference, equal length when only permuted, bytes equal to the standard Encoder with SetEscapeHTML(false), "
+             "Encoder setters (SetEscapeHTML/SetSortMapKeys/SetTrustRawMessage/SetAppendNewline) = Append with the same flags; "
+             "(c) the default output parsed with all 16 subsets of DontCopyString/DontCopyNumber/DontCopyRawMessage/"
+             "DontMatchCaseInsensitiveStructFields and through the Decoder setters (incl. ZeroCopy): same error, same value, "
+             "input bytes untouched",
+        trusted_base=["encoding/json as generic decoder and as no-escape reference; strconv.ParseFloat and big.Int.UnmarshalJSON are shared parameters"],
+        assumptions=["TrustRawMessage is only exercised on values whose raw messages are valid JSON (the property says so)",
+                     "for `,string` string fields encoding/json's own outputs for the two EscapeHTML settings decode to different strings "
+                     "(the inner quoting is HTML-escaped): the reference for the no-escape subsets is the no-escape output, tied byte for byte "
+                     "to the standard Encoder"],
+    ),
 }
